@@ -28,6 +28,8 @@ THEOREMS = ["Claripy.Props.C12.C12_mro_child", "Claripy.Props.C12.C12_mro_compos
             "Claripy.Props.C12.C12_marker_guarded", "Claripy.Props.C12.C12_marker_unguarded", "Claripy.Props.C12.C12_reabsorb_noop",
             "Claripy.Props.C12.C12_call_keeps_invariant", "Claripy.Props.C12.C12_composite_history_partial",
             "Claripy.Props.C12.C12_composite_history_invariant", "Claripy.Props.C12.C12_composite_history_given_reabsorb_partial",
+            "Claripy.Props.C12.C12_composite_history_one_owner_partial", "Claripy.Solver.comp_hist3", "Claripy.Solver.ownersOk_of_oneName",
+            "Claripy.Solver.compSatisfiable_solvers",
             "Claripy.Solver.CInv.of_world", "Claripy.Solver.compQuery_keeps", "Claripy.Solver.compTruth_keeps",
             "Claripy.Solver.solverForNames_one", "Claripy.Solver.child_truth_foot", "Claripy.Solver.MCInv.evalExh",
             "Claripy.Solver.MCInv.opt"]
